@@ -32,6 +32,9 @@ def alphabet():
         yield_(V("<state>y")),
         assign("<t>", S(V("<t>"), V("<dt>"))),
         assign("a", ["call", V("<func>f"), [V("b")], []]),
+        assign("arr", S(V("i"), V("b")), sub=[V("i")], loops=[["i", C(0), V("n")]]),
+        assign("<state>v", V("a"), sub=[V("n")]),
+        yield_(V("a"), comp="a", time=S(V("<t>"), V("n"))),
     ]
 
 
